@@ -93,6 +93,13 @@ class Executor:
         set_pol = self.swarm.get("set_policy", "mixed")
         walk_pol = self.swarm.get("walk_policy", "shuffled")
         self.set_policy, self.walk_policy = set_pol, walk_pol
+        if seams._INSTALLED.get("simset"):
+            # swarm: a share of runs uses the builtin set under the worker's real hash seed
+            if self.swarm.get("builtin_set"):
+                seams.remove_simset()
+                CTX.counters["runs_with_builtin_set"] += 1
+            else:
+                seams.inject_simset()
         with World(budget=self.swarm.get("step_budget", 5_000_000)) as w:
             self.world = w
             prev_state = None
@@ -178,6 +185,9 @@ class Executor:
             return {}
         if k == "set_git":
             w.git = op["scenario"]
+            return {}
+        if k == "set_env":
+            w.env = {k2: v for k2, v in op["env"].items()}
             return {}
         if k == "set_spelling":
             w.spelling = op["mode"]
